@@ -255,6 +255,23 @@ def two_rows_tabs(k1: int, k2: int, to1: int, to2: int, adjacent: bool, dbl: boo
     return _compare(words, dbl)
 
 
+def _three_rows(gap1, gap2, it1, it2, it3, dbl):
+    r2 = 3 + gap1
+    r3 = r2 + gap2
+    words = [R.RCL, R.pac(3, indent=0 if it1 else 4, italics=it1)] + R.chars("one") + \
+        [R.pac(r2, indent=0 if it2 else 8, italics=it2)] + R.chars("two") + \
+        [R.pac(r3, indent=0 if it3 else 4, italics=it3)] + R.chars("three") + [R.EOC]
+    return _compare(words, dbl)
+
+
+def three_rows(gap1: int, gap2: int, it1: bool, it2: bool, it3: bool, dbl: bool) -> str:
+    """
+    pre: 1 <= gap1 <= 2 and 1 <= gap2 <= 2
+    post: _ == ""
+    """
+    return _three_rows(1 if gap1 == 1 else 2, 1 if gap2 == 1 else 2, it1, it2, it3, dbl)
+
+
 def two_rows(r1: int, gap: int, ind1: int, ind2: int, it1: bool, it2: bool, dbl: bool) -> str:
     """
     pre: 1 <= r1 <= 12 and 1 <= gap <= 3 and 0 <= ind1 <= 6 and 0 <= ind2 <= 6
